@@ -45,6 +45,39 @@ def site_variants(text):
     return out
 
 
+# aborts the ENGINE raises by itself, substituted for a callback site: while binding the arguments of a call (after the frame was
+# pushed), in dispatch, in a guard, in arithmetic, in a container, in a declaration
+ENGINE_ERRORS = [("dupparam", "fun(dp, dp) { dp }(1, 2)"),
+                 ("dupdef", "verif_dup_param(1, 2)"),
+                 ("capture", "fun() { var cp = 5; fun[cp](cp) { cp }(7) }()"),
+                 ("nofun", "verif_no_such_function(1)"),
+                 ("guard", "verif_guarded(1)"),
+                 ("arity", "fun(p1) { p1 }(1, 2)"),
+                 ("divzero", "(1 / 0)"),
+                 ("range", "[1][5]"),
+                 ("redecl", "fun() { var rq = 1; var rq = 2; rq }()"),
+                 ("method", "fun() { var o = Dynamic_Object(); o.verif_no_method(1) }()"),
+                 ("attr", "verif_dup_method()")]
+ENGINE_PRELUDE = ("def verif_dup_param(a, a) { a }; def verif_guarded(x) : x > 5 { x }; "
+                  "class VerifDupK { def VerifDupK() { }; def m(b, b) { b } }; def verif_dup_method() { var k = VerifDupK(); k.m(1, 2) };\n")
+
+
+def engine_variants(text, quick, rnd):
+    """the engine's own errors substituted for the k-th cb( call site"""
+    out = []
+    for k, tag0, t2 in site_variants(text):
+        if tag0 != "throw":
+            continue
+        tags = ENGINE_ERRORS
+        if quick:
+            if k >= 4:
+                continue
+            tags = rnd.sample(ENGINE_ERRORS, 3)
+        for tag, repl in tags:
+            out.append((k, tag, ENGINE_PRELUDE + t2.replace("throw(7)", repl, 1) if t2.count("throw(7)") == 1 else None))
+    return [x for x in out if x[2]]
+
+
 def validate_traces(ck, traces, cfg="EvalStackTrace", tag="C09"):
     """all shards' traces through TLC; returns list of (trace path, rejected line number, event)"""
     rejected = []
@@ -126,6 +159,8 @@ def run(ck, tier, seed):
     cases = []
     meta = {}
     kinds = [0, 1, 2, 3]
+    import random
+    rnd = random.Random(seed * 7919 + 9)
     for pi, (text, names) in enumerate(progs):
         o = obs0[f"p{pi}.r0"]
         meta[f"p{pi}.r0"] = (text, names, "none")
@@ -149,6 +184,11 @@ def run(ck, tier, seed):
             meta[cid] = (t2, names, f"script-level {tag} at callback site {k}")
             cases.append({"id": cid, "trace": 1, "to": 20,
                           "steps": [{"op": "eval", "src": t2}, {"op": "locals"}, {"op": "eval", "src": SANITY}]})
+        for k, tag, t2 in engine_variants(text, quick, rnd):
+            cid = f"p{pi}.site{k}.{tag}"
+            meta[cid] = (t2, names, f"engine-raised error ({tag}) at callback site {k}")
+            cases.append({"id": cid, "trace": 1, "to": 20,
+                          "steps": [{"op": "eval", "src": t2}, {"op": "locals"}, {"op": "eval", "src": SANITY}]})
     obs, traces = lib.run_driver(vdrive, cases, work, tag="faults", trace=True)
     obs.update(obs0)
     traces += tr0
@@ -166,6 +206,8 @@ def run(ck, tier, seed):
             ck.violation(f"shape:{shape_key(st[0]['shape'])}",
                          f"after eval ({what}, outcome {st[0]['oc']}) stack shape is {st[0]['shape']} not {BASE_SHAPE}",
                          {"case": cid, "program": text, "fault": what, "shape": st[0]["shape"]})
+        if "threw" in st[1]:
+            ck.violation("locals-threw", f"get_locals() after eval ({what}) threw: {st[1]['threw']}", {"case": cid, "program": text, "fault": what})
         done = sum(1 for x in st[0]["out"] if re.fullmatch(r"T\d+", x))
         marks = [int(x[1:]) for x in st[0]["out"] if re.fullmatch(r"T\d+", x)]
         expect = sorted(n for i, n in enumerate(names) if n and i in marks)
@@ -192,7 +234,7 @@ def run(ck, tier, seed):
     ck.extra["programs"] = len(progs)
     ck.rule = ("fault enumeration: each program run once to count callback invocations, then once per (invocation, exception kind in "
                "{runtime_error, non-std type, Boxed_Value, eval_error}) and per script-level throw/return/break substituted at each "
-               "callback site; distinct = distinct (outcome class, final shape, exception type, #locals) tuples")
+               "callback site, and per error the engine raises by itself there (duplicate parameter / capture names while binding a call, unknown function, failed guard, arity, division by zero, out of range, redeclaration, unknown method); distinct = distinct (outcome class, final shape, exception type, #locals) tuples")
     ck.sample({"case": cases[0]["id"], "program": meta[cases[0]["id"]][0][:300], "fault": meta[cases[0]["id"]][2],
                "observation": obs[cases[0]["id"]]["steps"][0]})
     ck.sample({"case": cases[-1]["id"], "program": meta[cases[-1]["id"]][0][:300], "fault": meta[cases[-1]["id"]][2]})
